@@ -220,6 +220,16 @@ func init() {
 			st.assume("(and (not (= (itag " + r.tuple[0].term + ") 0)) (not (= " + r.tuple[1].term + " 0)))")
 			return r
 		},
+		"context.WithValue": func(e *Enc, fr *frame, st *State, a []Value, p string, rt types.Type) Value {
+			r := e.freshValue(st, p, rt)
+			st.assume("(not (= (itag " + r.term + ") 0))")
+			return r
+		},
+		"context.WithDeadline": func(e *Enc, fr *frame, st *State, a []Value, p string, rt types.Type) Value {
+			r := e.freshValue(st, p, rt)
+			st.assume("(and (not (= (itag " + r.tuple[0].term + ") 0)) (not (= " + r.tuple[1].term + " 0)))")
+			return r
+		},
 		"context.WithCancel": func(e *Enc, fr *frame, st *State, a []Value, p string, rt types.Type) Value {
 			r := e.freshValue(st, p, rt)
 			st.assume("(and (not (= (itag " + r.tuple[0].term + ") 0)) (not (= " + r.tuple[1].term + " 0)))")
